@@ -73,7 +73,7 @@ def build_nodes(tr, inp: bytes, out: bytes | None, omit, dep, parent, name, acc)
     return acc
 
 
-STALE = b"left behind by an earlier invocation\n"
+STALE = core.STALE
 
 
 def run_cache(ctx, tr, data: bytes, omit, dep, eb, via, scn):
